@@ -167,6 +167,7 @@ Ltac xe_solve tac :=
       | |- bind _ _ = bind _ _ => apply xe_bind_ext; [| intros ?]
       | |- seg _ _ = seg _ _ => apply f_equal
       | |- rewrap _ _ = rewrap _ _ => apply f_equal
+      | |- rewrap_path _ = rewrap_path _ => apply f_equal
       | |- mapMi _ _ _ = mapMi _ _ _ => apply xe_mapMi_ext; intros ? ?
       | |- mapM _ _ = mapM _ _ => apply xe_mapM_ext; intros ?
       | |- forM_ _ _ = forM_ _ _ => apply xe_forM_ext; intros ?
